@@ -106,6 +106,9 @@ def facts(snap, F):
     F.try_add("winBroadcastAssigned", "Bool", lambda: lean_bool(T.broadcast_assigned(tree("__init__.py"))),
               "net_if_addrs(): is the result of nt._replace(broadcast=...) assigned back to nt?")
 
+    F.try_add("sunosPid0AdNamed", "Bool", lambda: lean_bool(T.sunos_pid0_named(tree("_pssunos.py"))),
+              "_pssunos._proc_basic_info: `raise AccessDenied(self.pid, self._name)` (true) or without the name (false) for an unreadable PID 0")
+
     mt = {}
 
     def methods(ident):
@@ -251,3 +254,526 @@ def _baseline_documented():
     for m in re.finditer(r'\("(\w+)", \[([^\]]*)\]\)', val):
         out[m.group(1)] = re.findall(r'"([^"]*)"', m.group(2))
     return out
+
+
+# ------------------------------------------------------------------------------ implementation side
+
+CACHED_NAME, CACHED_PPID = "c20cached", 7
+REC_OF_MAP = {"kinfo_proc_map": 1, "pidtaskinfo_map": 2, "proc_info_map": 1, "pinfo_map": 1}
+SPECIAL_BARE = {"status", "terminal", "name"}
+# values that do not come through a slot map: the order the C function documents for its tuple
+DIRECT_EXPECT = {
+    ("sunos", "uids"): [["real", 3101], ["effective", 3102], ["saved", 3103]],
+    ("sunos", "gids"): [["real", 3104], ["effective", 3105], ["saved", 3106]],
+    ("aix", "uids"): [["real", 3101], ["effective", 3102], ["saved", 3103]],
+    ("aix", "gids"): [["real", 3104], ["effective", 3105], ["saved", 3106]],
+    ("sunos", "cpu_times"): [["user", 5101.0], ["system", 5102.0], ["children_user", 5103.0], ["children_system", 5104.0]],
+    ("aix", "cpu_times"): [["user", 5101.0], ["system", 5102.0], ["children_user", 5103.0], ["children_system", 5104.0]],
+    ("sunos", "num_ctx_switches"): [["voluntary", 7101], ["involuntary", 7102]],
+    ("aix", "num_ctx_switches"): [["voluntary", 7101], ["involuntary", 7102]],
+    ("aix", "io_counters"): [["read_count", 6101], ["write_count", 6102], ["read_bytes", 6103], ["write_bytes", 6104]],
+    ("windows", "io_counters"): [["read_count", 6101], ["write_count", 6102], ["read_bytes", 6103], ["write_bytes", 6104],
+                                 ["other_count", 6105], ["other_bytes", 6106]],
+    ("windows", "cpu_times"): [["user", 8101.0], ["system", 8102.0], ["children_user", 0.0], ["children_system", 0.0]],
+    ("windows", "memory_info"): [["rss", 4103], ["vms", 4108], ["num_page_faults", 4101], ["peak_wset", 4102], ["wset", 4103],
+                                 ["peak_paged_pool", 4104], ["paged_pool", 4105], ["peak_nonpaged_pool", 4106],
+                                 ["nonpaged_pool", 4107], ["pagefile", 4108], ["peak_pagefile", 4109], ["private", 4110]],
+}
+# methods whose slot rows describe the documented fall-back path (taken when the fast call is denied)
+FALLBACK_ROWS = {("windows", "memory_info"), ("windows", "io_counters"), ("windows", "cpu_times"),
+                 ("windows", "create_time"), ("windows", "num_handles"), ("sunos", "uids"), ("sunos", "gids")}
+KNOWN_REGIONS = {
+    "C20-win-ppid-bare": ("windows", "ppid", "ppid_map"),
+    "C20-win-memory-maps-bare": ("windows", "memory_maps", "QueryDosDevice"),
+}
+
+
+def errno_name(n):
+    return ERRNO_NAME.get(n, "E%s" % n)
+
+
+def impl_outcome(obs):
+    """observable of the emulated call → the outcome vocabulary of the model"""
+    if obs["kind"] == "value":
+        return {"k": "value"}
+    if obs["kind"] == "unscripted":
+        return {"k": "unscripted", "what": obs["what"]}
+    cls = obs["exc"]
+    if obs.get("psutil"):
+        named = obs.get("name") == CACHED_NAME
+        if cls == "ZombieProcess":
+            return {"k": "zombie", "pid": obs["pid"], "named": named and obs.get("ppid") == CACHED_PPID}
+        if cls == "NoSuchProcess":
+            return {"k": "nsp", "pid": obs["pid"], "named": named}
+        if cls == "AccessDenied":
+            return {"k": "ad", "pid": obs["pid"], "named": named}
+        return {"k": "exc:" + cls}
+    if "errno" in obs:
+        return {"k": "raw", "errno": errno_name(obs["errno"]), "winerror": obs.get("winerror"), "cls": cls}
+    return {"k": "exc:" + cls, "msg": obs.get("msg")}
+
+
+def same_outcome(a, b):
+    keys = ("k", "pid", "named", "errno", "winerror")
+    return all(a.get(k) == b.get(k) for k in keys)
+
+
+def py_class_of(name):
+    return {"ESRCH": "ProcessLookupError", "ENOENT": "FileNotFoundError", "EPERM": "PermissionError",
+            "EACCES": "PermissionError"}.get(name, "OSError")
+
+
+def model_pid0(ident, pid, state, pid0):
+    # OpenBSD: pids() adds 0 when Process(0).name() works, i.e. when the probe still sees pid 0
+    if ident == "openbsd" and pid == 0 and state != "gone":
+        return True
+    return pid0
+
+
+def fault_cases(emu, tier, rng=None):
+    """the exhaustive single-fault domain of one platform identity"""
+    pids = PIDS if tier == "quick" else PIDS + [1, 2, 4]
+    for meth in emu.process_methods():
+        for pid in pids:
+            obs0, tr0 = emu.run(meth, pid=pid)
+            for k, call in enumerate(tr0):
+                if call in NO_FAULT:
+                    continue
+                for ename, eno in ERRNOS:
+                    wins = [None] + WIN_CODES if emu.windows else [None]
+                    for win in wins:
+                        for state in ("gone", "zombie", "alive"):
+                            for pid0 in ((True, False) if pid == 0 else (True,)):
+                                stickies = (False, True) if (emu.windows and win == E.ERROR_PARTIAL_COPY) else (False,)
+                                for sticky in stickies:
+                                    yield {"kind": "fault", "ident": emu.ident, "meth": meth, "pid": pid, "k": k,
+                                           "call": call, "errno": ename, "winerror": win, "state": state,
+                                           "pid0": pid0, "sticky": sticky}
+
+
+def run_fault(emu, c):
+    eno = dict(ERRNOS)[c["errno"]]
+    obs, tr = emu.run(c["meth"], pid=c["pid"], fault_at=c["k"], err=(eno, c["winerror"]), state=c["state"],
+                      pid0_listed=c["pid0"], sticky=c["sticky"], name=CACHED_NAME, ppid=CACHED_PPID)
+    out = impl_outcome(obs)
+    out["sleeps"] = obs.get("sleeps", 0)
+    if len(tr) <= c["k"] or tr[c["k"]] != c["call"]:
+        out = {"k": "trace-drift", "trace": tr[:8]}
+    return out
+
+
+def fault_line(c):
+    return {"op": "fault", "plat": c["ident"], "meth": c["meth"], "call": c["call"], "errno": c["errno"],
+            "winerror": c["winerror"], "state": c["state"], "pid": c["pid"],
+            "pid0": model_pid0(c["ident"], c["pid"], c["state"], c["pid0"]), "persistent": c["sticky"]}
+
+
+def judge_fault(c, impl, m, res):
+    """compare one executed fault case with model and spec; returns True when a disagreement was recorded"""
+    if "bad" in m:
+        res.disagree("model", c, impl, m, None, note="the model has no such method/platform: " + str(m["bad"]))
+        return True
+    mo, allowed = m["model"]["o"], m["spec"]["allowed"]
+    in_spec = any(same_outcome(impl, a) for a in allowed)
+    region = None
+    for fid, (pl, me, ca) in KNOWN_REGIONS.items():
+        if (c["ident"], c["meth"], c["call"]) == (pl, me, ca):
+            region = fid
+    if not in_spec:
+        if region and impl.get("k") == "raw" and impl.get("errno") == c["errno"] and impl.get("winerror") == c["winerror"]:
+            res.known_seen[region] = res.known_seen.get(region, 0) + 1
+            return False
+        res.disagree("spec", c, impl, mo, {"cell": m["spec"]["cell"], "allowed": allowed},
+                     note="%s.Process(%d).%s(): native call #%d %s raises %s(winerror=%s), pid then %s: outcome outside the specification"
+                     % (c["ident"], c["pid"], c["meth"], c["k"], c["call"], c["errno"], c["winerror"], c["state"]))
+        return True
+    if not same_outcome(impl, mo) or impl.get("sleeps", 0) != m["model"]["sleeps"]:
+        res.disagree("model", c, impl, m["model"], {"cell": m["spec"]["cell"], "allowed": allowed},
+                     note="implementation differs from the Lean model (still inside the specification)")
+        return True
+    if impl.get("k") == "raw" and impl.get("cls") != py_class_of(impl.get("errno")):
+        res.disagree("model", c, impl, m["model"], None, note="unexpected OSError subclass")
+        return True
+    return False
+
+
+# ---- values
+
+
+def expected_rows(rows):
+    """driver rows → {nt: [[field, value]]} and list of bare values"""
+    nts, bare = {}, []
+    for r in rows:
+        src, slot = r["src"], r["slot"]
+        if src.startswith("const:"):
+            v = ast.literal_eval(src[len("const:"):])
+        elif slot is None:
+            v = ("unresolved", src)
+        else:
+            v = E.slot_value(REC_OF_MAP[slot["map"]], slot["idx"]) * slot["mul"]
+        if r["nt"]:
+            nts.setdefault(r["nt"], []).append([r["field"], v])
+        else:
+            bare.append(v)
+    return nts, bare
+
+
+def check_value(emu, fam, meth, obs, rowsets, res, case):
+    """tuple contents vs slot values, for model rows and spec rows"""
+    bad = False
+    for which in ("spec", "model"):
+        nts, bare = expected_rows(rowsets[which])
+        val = obs.get("value") if obs["kind"] == "value" else None
+        problem = None
+        if obs["kind"] != "value":
+            problem = "no value: %r" % (obs,)
+        elif nts:
+            vals = val if isinstance(val, list) else [val]
+            if not vals or not all(isinstance(x, dict) and "nt" in x for x in vals):
+                problem = "not a namedtuple"
+            for x in ([] if problem else vals):
+                got = {f: v for f, v in x["fields"]}
+                for nt, fl in nts.items():
+                    if nt != x["nt"]:
+                        problem = "namedtuple type %s, expected %s" % (x["nt"], nt)
+                    for f, v in fl:
+                        if f not in got or got[f] != v:
+                            problem = "field %s = %r, expected %r (slot named for it)" % (f, got.get(f), v)
+        elif bare and meth not in SPECIAL_BARE and not meth.startswith("_"):
+            if len(bare) == 1 and val != bare[0]:
+                problem = "value %r, expected %r" % (val, bare[0])
+        if problem:
+            res.disagree(which if which == "spec" else "model", case, obs, rowsets["model"], rowsets["spec"],
+                         note="%s %s(): %s" % (emu.ident, meth, problem))
+            bad = True
+            break
+    return bad
+
+
+def value_cases(emu):
+    for meth in emu.process_methods():
+        yield {"kind": "value", "ident": emu.ident, "meth": meth, "pid": 42, "fallback": False}
+    for (fam, meth) in sorted(FALLBACK_ROWS):
+        if fam == T.FAMILY[emu.ident]:
+            yield {"kind": "value", "ident": emu.ident, "meth": meth, "pid": 42, "fallback": True}
+
+
+def run_value(emu, c):
+    if c.get("fallback"):
+        obs, tr = emu.run(c["meth"], pid=c["pid"], fault_at=0,
+                          err=(errno.EACCES, E.ERROR_ACCESS_DENIED if emu.windows else None), state="alive",
+                          name=CACHED_NAME, ppid=CACHED_PPID)
+    else:
+        obs, tr = emu.run(c["meth"], pid=c["pid"], name=CACHED_NAME, ppid=CACHED_PPID)
+    return obs
+
+
+def fallback_expect(meth, spec_rows_by_method):
+    """Windows fall-back tuples: what the documented namedtuple must contain"""
+    if meth == "memory_info":
+        _, t = expected_rows(spec_rows_by_method["_get_raw_meminfo"])
+        srcs = [r["src"] for r in spec_rows_by_method["_get_raw_meminfo"]]
+        rss, vms = t[srcs.index("pinfo_map.wset")], t[srcs.index("pinfo_map.pagefile")]
+        fields = [f for f, _ in DIRECT_EXPECT[("windows", "memory_info")]]
+        return {"nt": "pmem", "fields": [[f, v] for f, v in zip(fields, [rss, vms] + t)]}
+    if meth == "io_counters":
+        _, t = expected_rows(spec_rows_by_method["io_counters"])
+        fields = [f for f, _ in DIRECT_EXPECT[("windows", "io_counters")]]
+        return {"nt": "pio", "fields": [[f, v] for f, v in zip(fields, t)]}
+    return None
+
+
+def judge_value(emu, c, obs, rows, res):
+    fam = T.FAMILY[emu.ident]
+    meth = c["meth"]
+    if c.get("fallback"):
+        want = fallback_expect(meth, rows)
+        if want is not None:
+            if obs.get("value") != want:
+                res.disagree("spec", c, obs, None, want, note="Windows %s() fall-back tuple is not the documented layout" % meth)
+                return True
+            return False
+        return check_value(emu, fam, meth, obs, rows[meth + "@rows"], res, c)
+    direct = DIRECT_EXPECT.get((fam, meth))
+    if direct is not None:
+        val = obs.get("value")
+        if not (obs["kind"] == "value" and isinstance(val, dict) and val.get("fields") == direct):
+            res.disagree("spec", c, obs, None, direct, note="%s %s(): fields are not in the order the native tuple documents" % (emu.ident, meth))
+            return True
+    rs = rows.get(meth + "@rows")
+    if rs and (rs["model"] or rs["spec"]):
+        if (fam, meth) in FALLBACK_ROWS:
+            return False          # their rows describe the fall-back path (checked with fallback=True)
+        return check_value(emu, fam, meth, obs, rs, res, c)
+    if obs["kind"] not in ("value",):
+        res.disagree("spec", c, obs, None, None, note="%s %s() without any fault does not return" % (emu.ident, meth))
+        return True
+    return False
+
+
+# ---- net_if_addrs
+
+
+def dotted(n):
+    return ".".join(str((n >> s) & 255) for s in (24, 16, 8, 0))
+
+
+def netif_cases(emu, rng, n_random):
+    sep = "-" if emu.windows else ":"
+    out = []
+    for groups in range(1, 8):
+        out.append({"fam": "link", "mac": sep.join("%02x" % (16 + i) for i in range(groups)), "ip": 0, "plen": None, "bcast": None})
+    ips = [0xC0A8010A, 0x0A000001, 0xFFFFFFFF, 0, 0xAC10FE07]
+    for plen in range(0, 33):
+        for ip in ips[:2]:
+            out.append({"fam": "inet", "mac": "", "ip": ip, "plen": plen, "bcast": None})
+    for ip in ips:
+        out.append({"fam": "inet", "mac": "", "ip": ip, "plen": None, "bcast": None})
+    for _ in range(n_random):
+        plen = rng.randrange(0, 33)
+        ip = rng.randrange(0, 2 ** 32)
+        b = None if emu.windows else ((ip | (2 ** (32 - plen) - 1)) if rng.random() < 0.7 else None)
+        out.append({"fam": "inet", "mac": "", "ip": ip, "plen": plen, "bcast": b})
+    out.append({"fam": "inet6", "mac": "", "ip": 0, "plen": None, "bcast": None})
+    return [dict(c, kind="netif", ident=emu.ident) for c in out]
+
+
+def run_netif(emu, c):
+    if c["fam"] == "link":
+        fam = -1 if emu.windows else emu.consts["AF_LINK"]
+        raw = ("nic0", fam, c["mac"], None, None, None)
+    elif c["fam"] == "inet":
+        mask = None if c["plen"] is None else dotted((2 ** 32 - 1) ^ (2 ** (32 - c["plen"]) - 1))
+        raw = ("nic0", int(socket.AF_INET), dotted(c["ip"]), mask, None if c["bcast"] is None else dotted(c["bcast"]), None)
+    else:
+        raw = ("nic0", int(socket.AF_INET6), "fe80::1", None, None, None)
+    emu.netif_raw = [raw]
+    obs, tr = emu.call(emu.pkg.net_if_addrs)
+    if obs["kind"] != "value":
+        return {"k": "exc", "obs": obs}
+    try:
+        ent = obs["value"]["dict"][0][1][0]
+        f = {k: v for k, v in ent["fields"]}
+        return {"k": "ok", "address": f["address"], "netmask": f["netmask"], "broadcast": f["broadcast"], "ptp": f["ptp"],
+                "family": f["family"].get("name") if isinstance(f["family"], dict) else f["family"]}
+    except Exception as e:  # noqa: BLE001
+        return {"k": "shape", "obs": obs, "err": repr(e)}
+
+
+def netif_line(emu, c):
+    return {"op": "netif", "windows": emu.windows, "fam": c["fam"], "mac": c["mac"], "ip": c["ip"], "plen": c["plen"],
+            "bcast": c["bcast"]}
+
+
+def judge_netif(emu, c, impl, m, res):
+    def want(side):
+        w = {"k": "ok"}
+        if c["fam"] == "link":
+            w["address"] = m[side]["mac"]
+            w["broadcast"] = None
+        elif c["fam"] == "inet":
+            w["address"] = dotted(c["ip"])
+            w["broadcast"] = None if m[side]["bcast"] is None else dotted(m[side]["bcast"])
+        else:
+            w["address"] = "fe80::1"
+            w["broadcast"] = None
+        return w
+    for side, kind in (("spec", "spec"), ("model", "model")):
+        w = want(side)
+        if impl.get("k") != "ok" or impl["address"] != w["address"] or impl["broadcast"] != w["broadcast"]:
+            res.disagree(kind, c, impl, want("model"), want("spec"),
+                         note="%s net_if_addrs(): post-processing result differs from the %s" % (emu.ident, side))
+            return True
+    return False
+
+
+# ---- api
+
+
+def judge_api(emu, m, res):
+    live = T.exposed_api(emu, {"x": m["documented"] + m["exposed"]})
+    bad = False
+    for nm in m["documented"]:
+        if nm not in live:
+            res.disagree("spec", {"kind": "api", "ident": emu.ident, "name": nm}, {"exposed": False}, None, {"exposed": True},
+                         note="documented for %s but not exposed by the package imported as %s" % (emu.ident, emu.ident))
+            bad = True
+    if sorted(set(m["exposed"])) != sorted(set(live) & set(m["exposed"])):
+        res.disagree("model", {"kind": "api", "ident": emu.ident}, sorted(live), m["exposed"], None,
+                     note="generated `exposed` table differs from the live package")
+        bad = True
+    return bad
+
+
+# ---- front end passes the records through
+
+
+FRONT = [("ppid", "ppid"), ("cpu_times", "cpu_times"), ("memory_info", "memory_info"), ("uids", "uids"), ("gids", "gids"),
+         ("num_ctx_switches", "num_ctx_switches"), ("io_counters", "io_counters"), ("num_threads", "num_threads"),
+         ("status", "status"), ("nice", "nice_get"), ("create_time", "create_time"), ("cmdline", "cmdline")]
+
+
+def front_end_pass(emu, res):
+    n = 0
+    for fm, pm in FRONT:
+        if not hasattr(emu.pkg.Process, fm) or pm not in emu.process_methods():
+            continue
+
+        def call():
+            return getattr(emu.pkg.Process(42), fm)()
+        fobs, _ = emu.call(call)
+        pobs, _ = emu.run(pm, pid=42)
+        n += 1
+        c = {"kind": "front", "ident": emu.ident, "meth": fm}
+        res.case(("front", emu.ident, fm), nontrivial=True)
+        res.count("family:front-end")
+        if fobs != {k: v for k, v in pobs.items() if k != "sleeps"}:
+            res.disagree("spec", c, fobs, None, pobs, note="front-end Process.%s() does not hand the platform record through" % fm)
+    return n
+
+
+# ------------------------------------------------------------------------------ correspondence
+
+
+def _chunks(xs, n):
+    for i in range(0, len(xs), n):
+        yield xs[i:i + n]
+
+
+def correspond(ctx, res):
+    emus = _emus(ctx.snap)
+    res.rule = ("exhaustive single-fault sweep: platform identity × public Process method × pid ∈ {42, 0} × each native "
+                "call of the no-fault trace × errno ∈ {ESRCH, ENOENT, EPERM, EACCES, EIO, EINVAL} (× winerror ∈ {None, 0, 5, "
+                "1314, 299, 87} on Windows) × pid state ∈ {gone, zombie, alive} (× pid 0 listed or not); plus tuple "
+                "contents of every method, net_if_addrs post-processing (all MAC lengths, all prefix lengths), "
+                "documented API per platform; non-trivial = a fault case or a value case with slot rows; "
+                "distinct = distinct case descriptors")
+    drv_lines = 0
+    total_fault = 0
+    # ---------------- faults
+    for ident in E.IDENTS:
+        emu = emus[ident]
+        cases = list(fault_cases(emu, ctx.tier))
+        impls = [run_fault(emu, c) for c in cases]
+        for part_c, part_i in zip(_chunks(cases, 20000), _chunks(impls, 20000)):
+            outs = ctx.driver().batch([fault_line(c) for c in part_c])
+            drv_lines += len(part_c)
+            for c, impl, m in zip(part_c, part_i, outs):
+                total_fault += 1
+                res.count("platform:" + ident)
+                res.count("errno:" + c["errno"])
+                res.count("state:" + c["state"])
+                if c["pid"] == 0:
+                    res.count("pid0")
+                res.count("impl:" + impl.get("k", "?"))
+                if "model" in m:
+                    res.count("cell:" + m["spec"]["cell"]["k"])
+                    if not same_outcome(m["model"]["o"], m["spec"]["cell"]):
+                        res.count("recoverable-path")
+                samp = None
+                if total_fault in (1, 4000, 9000):
+                    samp = {"case": c, "impl": impl, "model": m.get("model")}
+                res.case(tuple(sorted((k, str(v)) for k, v in c.items())), nontrivial=True, sample=samp)
+                judge_fault(c, impl, m, res)
+    # ---------------- values
+    for ident in E.IDENTS:
+        emu = emus[ident]
+        fam = T.FAMILY[ident]
+        meths = sorted(set(emu.process_methods()) | ({"_get_raw_meminfo"} if emu.windows else set()))
+        outs = ctx.driver().batch([{"op": "record", "fam": fam, "method": m} for m in meths])
+        drv_lines += len(meths)
+        rows = {}
+        for mname, o in zip(meths, outs):
+            if "bad" in o:
+                raise InfraError("driver rejected record query: %s" % o)
+            rows[mname + "@rows"] = o
+            rows[mname] = o["spec"]
+        for c in value_cases(emu):
+            obs = run_value(emu, c)
+            has_rows = bool(rows.get(c["meth"] + "@rows", {}).get("model"))
+            res.count("family:values")
+            res.case(("value", ident, c["meth"], c["fallback"]), nontrivial=has_rows or (fam, c["meth"]) in DIRECT_EXPECT,
+                     sample={"case": c, "impl": obs} if (ident, c["meth"]) == ("freebsd", "cpu_times") else None)
+            judge_value(emu, c, obs, rows, res)
+        front_end_pass(emu, res)
+    # ---------------- net_if_addrs
+    for ident in E.IDENTS:
+        emu = emus[ident]
+        cases = netif_cases(emu, ctx.rng, ctx.n(40, 2000))
+        outs = ctx.driver().batch([netif_line(emu, c) for c in cases])
+        drv_lines += len(cases)
+        for c, m in zip(cases, outs):
+            if "bad" in m:
+                raise InfraError("driver rejected netif query: %s" % m)
+            impl = run_netif(emu, c)
+            res.count("family:net_if_addrs")
+            res.case(("netif", ident, c["fam"], c["mac"], c["ip"], c["plen"], c["bcast"]),
+                     nontrivial=(c["fam"] == "link" or (emu.windows and c["plen"] is not None)),
+                     sample={"case": c, "impl": impl} if (ident == "windows" and c["plen"] == 24 and c["ip"] == 0xC0A8010A) else None)
+            judge_netif(emu, c, impl, m, res)
+    # ---------------- documented API
+    outs = ctx.driver().batch([{"op": "api", "plat": i} for i in E.IDENTS])
+    drv_lines += len(E.IDENTS)
+    for ident, m in zip(E.IDENTS, outs):
+        res.count("family:api")
+        res.case(("api", ident), nontrivial=True)
+        judge_api(emus[ident], m, res)
+    res.exhaustive = ("the whole single-fault domain described in `rule` (%d cases), every MAC length 1..7 and every "
+                      "IPv4 prefix length 0..32; random IPv4 addresses are samples" % total_fault)
+    res.extra["driver_lines"] = drv_lines
+    res.extra["fault_cases"] = total_fault
+    # the Linux psutil of this interpreter must be untouched
+    import sys
+    if sys.platform != "linux" or os.name != "posix":
+        raise InfraError("sys.platform/os.name were not restored by the emulation")
+
+
+def search(ctx, res, broken):
+    correspond(ctx, res)
+
+
+def _rerun(ctx, inp, res):
+    emus = _emus(ctx.snap)
+    emu = emus[inp["ident"]]
+    kind = inp.get("kind")
+    if kind == "fault":
+        impl = run_fault(emu, inp)
+        m = ctx.driver().batch([fault_line(inp)])[0]
+        return judge_fault(inp, impl, m, res) and res.disagreements[-1]["kind"] == "spec"
+    if kind == "value":
+        fam = T.FAMILY[emu.ident]
+        meths = sorted(set(emu.process_methods()) | ({"_get_raw_meminfo"} if emu.windows else set()))
+        outs = ctx.driver().batch([{"op": "record", "fam": fam, "method": m} for m in meths])
+        rows = {}
+        for mname, o in zip(meths, outs):
+            rows[mname + "@rows"] = o
+            rows[mname] = o["spec"]
+        return judge_value(emu, inp, run_value(emu, inp), rows, res) and res.disagreements[-1]["kind"] == "spec"
+    if kind == "netif":
+        m = ctx.driver().batch([netif_line(emu, inp)])[0]
+        return judge_netif(emu, inp, run_netif(emu, inp), m, res) and res.disagreements[-1]["kind"] == "spec"
+    if kind == "api":
+        m = ctx.driver().batch([{"op": "api", "plat": inp["ident"]}])[0]
+        live = T.exposed_api(emu, {"x": m["documented"]})
+        return inp.get("name") in m["documented"] and inp.get("name") not in live
+    if kind == "front":
+        n0 = len(res.disagreements)
+        front_end_pass(emu, res)
+        return any(d["input"].get("meth") == inp.get("meth") for d in res.disagreements[n0:])
+    return True
+
+
+def replay(ctx, rp, res):
+    inp = rp.get("input") or {}
+    if not isinstance(inp, dict) or "ident" not in inp:
+        return True
+    return bool(_rerun(ctx, inp, res))
+
+
+def check_finding(ctx, fnd):
+    w = fnd["witness"]
+    emus = _emus(ctx.snap)
+    impl = run_fault(emus[w["ident"]], w)
+    if impl.get("k") == "raw" and impl.get("errno") == w["errno"]:
+        return "reproduces"
+    return "gone"
